@@ -335,7 +335,7 @@ def fam_segment_cache(R, deg, quad_available):
                 return {'cls': 'CubicBezier length cache serves a coarser / foreign value' if deg == 3 else 'QuadraticBezier length cache',
                         'inputs': {'e1': mval(m, e1), 'e2': mval(m, e2), 'd1': mval(m, d1), 'd2': mval(m, d2), 'variant': variant,
                                    'quad_available': quad_available},
-                        'script': REPLAY_CACHE % (deg, variant, quad_available, mval(m, e1), mval(m, e2), mval(m, d1), mval(m, d2))}
+                        'script': REPLAY_CACHE % (variant, deg, variant, quad_available, mval(m, e1), mval(m, e2), mval(m, d1), mval(m, d2))}
             # served value is either the fresh one, or a cached one that is at least as accurate and for the same curve
             at_least_as_accurate = z3.And(e1.e <= e2.e, d1.e >= d2.e) if not quad_available else e1.e <= e2.e
             same_curve = z3.BoolVal(True) if variant != 'reassign' else z3.And(*[ceq(a_, b_) for a_, b_ in zip(ps0, cur)])
@@ -350,6 +350,12 @@ def fam_segment_cache(R, deg, quad_available):
 
 REPLAY_CACHE = '''
 import svgpathtools.path as P, itertools
+# control points whose hashes collide in CPython (hash(-1) == hash(-2)): a cache keyed by hash() instead of the points is stale here
+if %r == 'reassign':
+    c_ = P.CubicBezier(-1+2j, 30+90j, 70-60j, 100+10j); c_.length()
+    c_.start = -2+2j
+    if c_.length() != P.CubicBezier(-2+2j, 30+90j, 70-60j, 100+10j).length():
+        REPRODUCED('length() after reassigning start -1+2j -> -2+2j returns the old value')
 deg, variant, quad_available, e1m, e2m, d1m, d2m = %r, %r, %r, %r, %r, %r, %r
 if not quad_available: P._quad_available = False
 sgn = lambda x: (x > 0) - (x < 0)
